@@ -90,16 +90,23 @@ def run(c):
             out["err"] = [list(r), list(r2)]
         return out
     cols = np.array(c["cols"], dtype=float).T
-    r = guarded(lambda: irr.simulate_npc_dist(cols, np.array(c["size"]), obs_ts=np.array(c["obs"], dtype=float), plus1=c["plus1"]))
+    # the stratum sizes as the caller holds them: ONE array object (integer or float dtype) passed to every call below
+    size = np.array(c["size"], dtype=[np.int64, float, float, np.int32][(len(c["cols"]) + sum(c["size"])) % 4])
+    size0 = size.copy()
+    r = guarded(lambda: irr.simulate_npc_dist(cols, size, obs_ts=np.array(c["obs"], dtype=float), plus1=c["plus1"]))
     if r[0] != "ok":
         return {"ok": False, "err": list(r)}
     out = {"ok": True, "obs_npc": float(r[1]["obs_npc"]), "pvalue": float(r[1]["pvalue"]), "num_perm": int(r[1]["num_perm"])}
+    r1 = guarded(lambda: irr.simulate_npc_dist(cols, size, obs_ts=np.array(c["obs"], dtype=float), plus1=c["plus1"]))
+    out["again"] = [r1[0], float(r1[1]["obs_npc"]), float(r1[1]["pvalue"])] if r1[0] == "ok" else list(r1)
+    out["size_unmodified"] = bool((size == size0).all()) and size.dtype == size0.dtype
     # the same call with the per-stratum p-values supplied instead of the observed statistics, and with neither
     B = cols.shape[0]; pc = 1 if c["plus1"] else 0
     pv = np.array([(np.sum(cols[:, j] >= c["obs"][j]) + pc) / (B + pc) for j in range(cols.shape[1])])
-    r2 = guarded(lambda: irr.simulate_npc_dist(cols, np.array(c["size"]), pvalues=pv, plus1=c["plus1"]))
+    r2 = guarded(lambda: irr.simulate_npc_dist(cols, size, pvalues=pv, plus1=c["plus1"]))
     out["via_pvalues"] = [r2[0], float(r2[1]["obs_npc"]), float(r2[1]["pvalue"])] if r2[0] == "ok" else list(r2)
-    out["neither"] = list(guarded(lambda: irr.simulate_npc_dist(cols, np.array(c["size"]), plus1=c["plus1"])))[:2]
+    out["neither"] = list(guarded(lambda: irr.simulate_npc_dist(cols, size, plus1=c["plus1"])))[:2]
+    out["size_unmodified"] = out["size_unmodified"] and bool((size == size0).all())
     return out
 
 
@@ -146,6 +153,11 @@ def oracle(c, o):
     want = -sum(float(p) / math.sqrt(s) for p, s in zip(ps, c["size"]))
     if abs(o["obs_npc"] - want) > 1e-9 or o["num_perm"] != B:
         return {"why": f"obs_npc={o['obs_npc']} expected {want}", "cls": "irr:npcdist-formula"}
+    if not o.get("size_unmodified", True):
+        return {"why": f"simulate_npc_dist modified the array of stratum sizes passed by the caller ({c['size']})", "cls": "irr:input-modified"}
+    ag = o.get("again")
+    if ag is not None and (ag[0] != "ok" or ag[1] != o["obs_npc"] or ag[2] != o["pvalue"]):
+        return {"why": f"simulate_npc_dist called twice with the same arguments returned (obs_npc, p) = ({o['obs_npc']}, {o['pvalue']}) and then {ag}", "cls": "irr:npcdist-formula"}
     vp = o.get("via_pvalues")
     if vp is not None and (vp[0] != "ok" or abs(vp[1] - want) > 1e-9 or abs(vp[2] - o["pvalue"]) > 1e-12):
         return {"why": f"simulate_npc_dist with the per-stratum p-values supplied gives {vp}, with the observed statistics obs_npc={o['obs_npc']}, p={o['pvalue']}", "cls": "irr:npcdist-formula"}
